@@ -34,7 +34,11 @@ typedef struct CAT(etl_bitset_, VF_N) B;
 #define PADMASK ((N % WB) == 0 ? (WT)0 : (WT)((WT)~(WT)0 << (N % WB)))
 #define WF(b) ((WORD(b, NW - 1) & PADMASK) == 0)
 static _Bool bit(const B *b, unsigned long i) { return (_Bool)((WORD(*b, i / WB) >> (i % WB)) & 1); }
-static unsigned long s_count(const B *b) { unsigned long c = 0; for (unsigned long i = 0; i < N; ++i) c += bit(b, i); return c; }
+/* number of set bits among the N bits.  Cardinality is additive over any partition of the index set: the indices are summed octet by
+ * octet (independent of the word type), each octet in a narrow counter -- the same number as a flat sum, but a far smaller SAT problem */
+static unsigned long s_count(const B *b) { unsigned long c = 0;
+  for (unsigned long k = 0; k < N; k += 8) { unsigned char oc = 0; for (unsigned long i = k; i < k + 8 && i < N; ++i) oc += bit(b, i); c += oc; }
+  return c; }
 B vf_snap; B *vf_snap_of;
 #define VF_HANDLER_CHECK() do { if (vf_snap_of) { _Bool same = 1; for (int i = 0; i < NW; ++i) same = same && WORD(*vf_snap_of, i) == WORD(vf_snap, i); \
     __CPROVER_assert(same, "C05: the bitset is unmodified when the assertion handler runs"); } } while (0)
@@ -102,6 +106,43 @@ void h_bitwise(void) { ARB(a); ARB(b); GHOST(g); VF_INPUT(unsigned char, op); VF
   VF_ASSERT(bit(&b, g) == bit(&ob, g), "right operand unchanged");
   VF_REACH(); }
 
+/* Aliasing: [template.bitset] states every binary operation bit-wise on the VALUES of its operands; nothing exempts the case that
+ * two (or all three) of left operand l / right operand r / destination x are the SAME object.  a and b are both arbitrary, so l = a
+ * without loss of generality; r and x range over {a, b}: x op= x, x == x, x op x, x = x op x, x = x op y, x = y op x, x = y op y and
+ * the all-distinct forms are covered.  (Four call sites with constant addresses: a symbolic choice of the POINTERS is the same
+ * statement, but costs CBMC a case split at every dereference.) */
+/*@GROUP name=alias props=C17,C02 kind=K unwind=VF_N+4@*/
+static void alias_case(B *a, B *b, B *L, B *R, B *X, unsigned long g, unsigned char op) { B r; B oa = *a, ob = *b; const B oL = *L, oR = *R;
+  _Bool l = bit(&oL, g), q = bit(&oR, g); B *W = 0;   /* W: the one object the operation may write (0: none) */
+  if (op == 0) { b_and_eq(L, R); W = L; VF_ASSERT(bit(L, g) == (l && q), "l &= r, r possibly the same object as l: bit i == old l[i] & old r[i]  (x &= x leaves x)"); }
+  else if (op == 1) { b_or_eq(L, R); W = L; VF_ASSERT(bit(L, g) == (l || q), "l |= r, r possibly the same object as l: bit i == old l[i] | old r[i]  (x |= x leaves x)"); }
+  else if (op == 2) { b_xor_eq(L, R); W = L; VF_ASSERT(bit(L, g) == (l != q), "l ^= r, r possibly the same object as l: bit i == old l[i] ^ old r[i]  (x ^= x clears x)"); }
+  else if (op == 3) { b_and(&r, L, R); VF_ASSERT(WF(r) && bit(&r, g) == (l && q), "l & r with possibly identical operands"); }
+  else if (op == 4) { b_or(&r, L, R); VF_ASSERT(WF(r) && bit(&r, g) == (l || q), "l | r with possibly identical operands"); }
+  else if (op == 5) { b_xor(&r, L, R); VF_ASSERT(WF(r) && bit(&r, g) == (l != q), "l ^ r with possibly identical operands  (x ^ x is empty)"); }
+  else if (op == 6) { b_assign_and(X, L, R); W = X; VF_ASSERT(bit(X, g) == (l && q), "x = l & r, x possibly one of the operands"); }
+  else if (op == 7) { b_assign_or(X, L, R); W = X; VF_ASSERT(bit(X, g) == (l || q), "x = l | r, x possibly one of the operands"); }
+  else if (op == 8) { b_assign_xor(X, L, R); W = X; VF_ASSERT(bit(X, g) == (l != q), "x = l ^ r, x possibly one of the operands"); }
+  else if (op == 9) { b_assign(X, R); W = X; VF_ASSERT(bit(X, g) == q, "x = r, possibly self-assignment"); }
+  else if (op == 10) { b_chain_xor_and(L, R); W = L; VF_ASSERT(bit(L, g) == (l != q), "(x ^= r) &= x: the returned reference IS x, and-ing x with itself keeps x ^ r"); }
+  else if (op == 11) { b_chain_or_xor(L, R); W = L; VF_ASSERT(!bit(L, g) && b_none(L), "(x |= r) ^= x: the returned reference IS x, xor-ing x with itself clears it"); }
+  else { _Bool eq = 1; for (unsigned long i = 0; i < N; ++i) eq = eq && bit(&oL, i) == bit(&oR, i);
+    VF_ASSERT(b_eq(L, R) == eq && b_ne(L, R) == !eq, "l == r / l != r compare the N bits, also when l and r are the same object");
+    if (L == R) VF_ASSERT(b_eq(L, R) && !b_ne(L, R), "x == x is true, x != x is false"); }
+  VF_ASSERT(WF(*a) && WF(*b), "padding bits of both objects stay zero");
+  VF_ASSERT((W == a || bit(a, g) == bit(&oa, g)) && (W == b || bit(b, g) == bit(&ob, g)), "no object other than the destination is modified"); }
+void h_alias(void) { ARB(a); ARB(b); GHOST(g); VF_INPUT(unsigned char, op); VF_INPUT_BOOL(rb); VF_INPUT_BOOL(xb);
+  if (!rb && !xb) alias_case(&a, &b, &a, &a, &a, g, op); else if (!rb) alias_case(&a, &b, &a, &a, &b, g, op);
+  else if (!xb) alias_case(&a, &b, &a, &b, &a, g, op); else alias_case(&a, &b, &a, &b, &b, g, op);
+  VF_REACH(); }
+
+/*@GROUP name=ref_alias props=C17,C02 kind=K unwind=VF_N+4@*/
+void h_ref_alias(void) { ARB(b); GHOST(g); VF_INPUT(unsigned long, p); VF_INPUT(unsigned long, q); VF_INPUT_BOOL(v); VF_INPUT(unsigned char, op); __CPROVER_assume(p < N && q < N); B o = b;
+  if (op == 0) { b_ref_assign_ref(&b, p, &b, q); VF_ASSERT(bit(&b, g) == (g == p ? bit(&o, q) : bit(&o, g)), "b[p] = b[q] within ONE bitset (same or different word, p == q included): bit p takes the old bit q, the rest is unchanged"); }
+  else { b_ref_assign(&b, p, v); b_ref_assign_ref(&b, q, &b, p); VF_ASSERT(bit(&b, g) == (g == p || g == q ? v : bit(&o, g)), "b[p] = v; b[q] = b[p]: both bits are v, the rest is unchanged"); }
+  VF_ASSERT(WF(b), "proxy assignment within one bitset keeps the padding bits zero");
+  VF_REACH(); }
+
 /*@GROUP name=to_integer props=C17,C02 kind=K unwind=VF_N+4 when=(VF_N<=64)*(VF_BASIC==0)@*/
 void h_to_integer(void) { ARB(b); unsigned long long e = 0; for (unsigned long i = 0; i < N; ++i) if (bit(&b, i)) e |= 1ULL << i;
   VF_ASSERT(b_to_ullong(&b) == e && b_to_ulong(&b) == (unsigned long)e, "to_ulong/to_ullong: bit i is binary digit i");
@@ -123,6 +164,19 @@ void h_from_string(void) { VF_INPUT(B, b); VF_INPUT(B, c); GHOST(g); VF_INPUT(un
   b_from_sv(&b, s, len, pos, n, zero, one);
   /* [bitset.cons]: character at pos + rlen - 1 - i initialises bit i (the LAST character is bit 0); bits >= rlen are zero */
   VF_ASSERT(WF(b) && bit(&b, g) == (g < rlen ? s_in[pos + rlen - 1 - g] == one : 0), "bitset(string_view,pos,n,zero,one): character pos+rlen-1-i initialises bit i, remaining bits zero");
+  VF_REACH(); }
+
+/* the remaining constructor overloads (separate bodies): bitset(char const*, n, zero, one) with an explicit count and with n == npos
+ * (NUL-terminated), and bitset(string_view) with every default argument */
+/*@GROUP name=from_cstr props=C17,C02 kind=K unwind=VF_N+6 when=(VF_BASIC==0)*(VF_N<=9) bound=string-length<=N@*/
+void h_from_cstr(void) { VF_INPUT(B, b); GHOST(g); VF_INPUT(unsigned char, len); VF_INPUT(unsigned char, n8); VF_INPUT(unsigned char, form); VF_INPUT(char, zero); VF_INPUT(char, one);
+  __CPROVER_assume(len <= N && zero != one); VF_BUF(char, s, len + 1, N + 1);   /* len characters and the terminator */
+  for (unsigned long i = 0; i < N + 1; ++i) { if (i < len) __CPROVER_assume(s_in[i] == zero || s_in[i] == one); if (i == len) __CPROVER_assume(s_in[i] == 0); }
+  unsigned long rlen = len;
+  if (form == 0) { __CPROVER_assume(n8 <= len); rlen = n8; b_from_cstr(&b, s, n8, zero, one); }   /* [bitset.cons]: the first n characters of str */
+  else if (form == 1) { __CPROVER_assume(zero != 0 && one != 0); b_from_cstr(&b, s, (unsigned long)-1, zero, one); }   /* n == npos: up to the terminator */
+  else { __CPROVER_assume(zero == '0' && one == '1'); b_from_sv_default(&b, s, len); }
+  VF_ASSERT(WF(b) && bit(&b, g) == (g < rlen ? s_in[rlen - 1 - g] == one : 0), "bitset(char const*, n, zero, one) / bitset(string_view): character rlen-1-i initialises bit i, remaining bits zero");
   VF_REACH(); }
 
 /*@GROUP name=viol props=C05,C02 kind=K unwind=VF_N+4@*/
